@@ -1978,20 +1978,20 @@ func Run(t *testing.T, scAny any, c *kernel.Ctx) error {
 var Prop = &kernel.Property{
 	ID:    "C10",
 	Level: "exploration",
-	Rule: "seeded histories (rapid) of DISCOVER / REQUEST (selecting with right or wrong server id and requested address, init-reboot, renew) / DECLINE / RELEASE from 1-25 simulated clients over a pool of 2-20 addresses, hostnames (valid, duplicate, invalid, empty, colliding with generated names), static-lease add/update/remove through the real HTTP handlers (inside/outside the pool, gateway, duplicates, malformed), clock advances aimed at the lease time, restarts, POST /control/dhcp/set_config (DHCP switched off and on again, the same or a moved/grown/shrunk range and lease time, invalid and incomplete sections) with static-lease operations, time and restarts while switched off; " +
-		"a case is non-trivial when >=1 dynamic lease was acknowledged and it saw >=1 restart, accepted configuration change, clock jump past the lease time, pool exhaustion or accepted static-lease operation; distinct = distinct scenario digests",
+	Rule: "seeded histories (rapid) of DISCOVER / REQUEST (selecting with right or wrong server id and requested address, init-reboot, renew) / DECLINE / RELEASE from 1-25 simulated clients over a pool of 2-20 addresses, hostnames (valid, duplicate, invalid, empty, colliding with generated names), static-lease add/update/remove through the real HTTP handlers (inside/outside the pool, gateway, duplicates, malformed), clock advances aimed at the lease time, restarts, POST /control/dhcp/set_config (DHCP switched off and on again, the same or a moved/grown/shrunk range and lease time, invalid and incomplete sections) with static-lease operations, time and restarts while switched off; concurrent phases (op par, seeded cooperative scheduler on the instrumented copy of the tree): 2-4 overlapped tasks of 1-2 operations each (at most 5) - DISCOVER/REQUEST exchanges and single REQUEST (selecting, init-reboot, renew) / RELEASE / DECLINE of up to three different clients, static-lease add / update / remove (aimed at the address, client and hostname the messages are about), reset_leases, and the readers Leases / HostByIP / IPByHost / MACByIP / GET status - interleaved at the lock boundaries of the real code; " +
+		"a case is non-trivial when >=1 dynamic lease was acknowledged and it saw >=1 restart, accepted configuration change, clock jump past the lease time, pool exhaustion, accepted static-lease operation or concurrent phase; distinct = distinct scenario digests",
 	Gen: Gen,
 	New: func() any { return &Scenario{} },
 	Run: Run,
 	NonTrivial: func(_ any, c *kernel.Ctx) bool {
-		return c.Probes["dynamic_lease_acked"] > 0 && (c.Faults["clean_restart"] > 0 || c.Faults["config_reload"] > 0 || c.Faults["clock_jump_past_lease_time"] > 0 || c.Faults["pool_exhausted"] > 0 || c.Probes["static_added"]+c.Probes["static_updated"]+c.Probes["static_removed"] > 0)
+		return c.Probes["dynamic_lease_acked"] > 0 && (c.Faults["clean_restart"] > 0 || c.Faults["config_reload"] > 0 || c.Faults["clock_jump_past_lease_time"] > 0 || c.Faults["pool_exhausted"] > 0 || c.Faults["overlapped_operations"] > 0 || c.Probes["static_added"]+c.Probes["static_updated"]+c.Probes["static_removed"] > 0)
 	},
-	Real:        []string{"internal/dhcpd: Create, v4Server packet handler (handle, discover/request/decline/release), static-lease and set_config HTTP handlers, WriteDiskConfig (a restart is created from what the server reported at its last ConfigModified), lease indexes and pool bitset, dbStore/dbLoad + leases.json (renameio) on tmpfs", "github.com/insomniacslk/dhcp/dhcpv4 wire format (requests and replies cross it)"},
+	Real:        []string{"internal/dhcpd locking (leasesLock acquisitions and releases are the scheduling points of the concurrent phase), reset_leases and status handlers, HostByIP / IPByHost / MACByIP / Leases as the DNS side calls them", "internal/dhcpd: Create, v4Server packet handler (handle, discover/request/decline/release), static-lease and set_config HTTP handlers, WriteDiskConfig (a restart is created from what the server reported at its last ConfigModified), lease indexes and pool bitset, dbStore/dbLoad + leases.json (renameio) on tmpfs", "github.com/insomniacslk/dhcp/dhcpv4 wire format (requests and replies cross it)"},
 	Stub:        []string{"DHCP raw/UDP sockets (fake net.PacketConn capturing replies)", "interface probing of Start (server addresses injected through configureDNSIPAddrs; the Start that set_config attempts fails on the non-existent interface and its error answer is disregarded)", "ICMP conflict probe (ICMPTimeout=0)", "DHCP clients (simulated state machines)", "admin HTTP client (handlers called in-process)", "wall clock (synctest fake clock)", "DHCPv6 (disabled)"},
-	Assumptions: []string{"reservations are what the static-lease API itself confirmed with 200", "a lease is unexpired while its expiry is after now; at the exact expiry instant an address counts as taken for the offer-liveness clause only", "addresses merely offered (never acknowledged) do not count as leased for the offer-liveness clause", "expiry is compared at one-second resolution across disk and restart, and the last second of a client's lease is not judged (leases.json and the lease-time option carry whole seconds)", "a client holds an acknowledged address until its lease time runs out, it sends RELEASE/DECLINE, it is NAKed, or an administrator operation / restart removes the lease from the table (those removals are judged by I6/I7)", "while DHCP is switched off no message reaches the server", "a configuration is in force when the server announced the change (ConfigModified); what becomes of dynamic leases outside a newly configured pool is left open and not asserted (they must not stay in the table as dynamic leases)", "all-zero MAC (the implementation's conflict marker) and 8/20-byte hardware addresses are not generated", "after a listed finding that leaves the table persistently corrupt (same lease listed twice, I1/I2/I3 broken, two leases under one hostname, a reserved client answered another address) the rest of that case only looks for crashes; listed findings that heal with the next store or only concern a restart do not end the checking"},
+	Assumptions: []string{"reservations are what the static-lease API itself confirmed with 200", "a lease is unexpired while its expiry is after now; at the exact expiry instant an address counts as taken for the offer-liveness clause only", "addresses merely offered (never acknowledged) do not count as leased for the offer-liveness clause", "expiry is compared at one-second resolution across disk and restart, and the last second of a client's lease is not judged (leases.json and the lease-time option carry whole seconds)", "a client holds an acknowledged address until its lease time runs out, it sends RELEASE/DECLINE, it is NAKed, or an administrator operation / restart removes the lease from the table (those removals are judged by I6/I7)", "while DHCP is switched off no message reaches the server", "a configuration is in force when the server announced the change (ConfigModified); what becomes of dynamic leases outside a newly configured pool is left open and not asserted (they must not stay in the table as dynamic leases)", "concurrent phase: every DHCP packet is handled on a goroutine of its own (server4.Serve) next to the admin API handlers and the DNS-side readers, so messages of different clients, admin calls and reads overlap; the messages of ONE client do not (a client waits for the answer), nor do the calls of one administrator task", "concurrent phase: each overlapped operation (one message, one admin call, one read) takes effect at one moment between its start and its end; the statement does not say which of two overlapped operations comes first (who gets the contested address, whether the static add or the REQUEST wins), so every serial order that keeps each task's own order is accepted - and nothing else: the answers of all operations and the state afterwards (lease table, the index entries HostByIP/IPByHost/MACByIP answer from, pool bitset) must be those of ONE such order, and leases.json must list the table (or be as stale as that serial order leaves it through a listed finding of a sequential operation)", "concurrent phase: C10 has no allocator model (which free address is offered is left open), so the serial orders are executed by the implementation itself, one operation at a time, on exact copies of the server as it was before the phase; the explaining serial execution is then judged operation by operation by the sequential oracle (I1..I7, offer liveness, reservations, held addresses), and the invariants are checked once more on the live server", "concurrent phase: set_config, reset (factory), find_active_dhcp and interfaces are not overlapped (set_config swaps the whole server object without synchronisation and probes the network; it is exercised sequentially)", "all-zero MAC (the implementation's conflict marker) and 8/20-byte hardware addresses are not generated", "after a listed finding that leaves the table persistently corrupt (same lease listed twice, I1/I2/I3 broken, two leases under one hostname, a reserved client answered another address) the rest of that case only looks for crashes; listed findings that heal with the next store or only concern a restart do not end the checking"},
 	FaultKinds:  []string{"clean_restart", "config_reload", "clock_jump_past_lease_time", "pool_exhausted", "client_wrong_server_id", "overlapped_operations"},
 	ProbeNames: []string{"offer", "ack", "nak", "silent", "dynamic_lease_acked", "static_lease_acked", "reply_to_reserved_client", "static_added", "static_added_outside_pool", "static_updated", "static_removed", "static_remove_hit_dynamic", "static_rejected",
 		"decline_reallocated", "release_removed_lease", "discover_new_client_free_address", "offer_recycled_entry", "expired_lease_in_table", "restart_with_leases", "shadow_restart_checked", "held_lease_revoked_by_admin_or_restart", "reservation_dropped_by_restart", "restart_from_stale_disk", "table_dup_seen", "table_invariant_broken_seen", "disk_differs_seen", "ops_after_taint",
 		"setconf_enabled", "setconf_disabled", "setconf_range_changed", "setconf_rejected", "setconf_start_stubbed", "setconf_with_leases", "message_while_disabled", "lease_outside_new_pool",
-		"sched_steps", "sched_switches", "par_interleaved", "par_serializable", "par_serial_orders_tried", "par_completion_order_not_serial_order", "par_neither_completion_nor_start_order", "leases_reset"},
+		"sched_steps", "sched_switches", "sched_escapes", "par_interleaved", "par_serializable", "par_serial_orders_tried", "par_completion_order_not_serial_order", "par_neither_completion_nor_start_order", "leases_reset"},
 }
